@@ -3,7 +3,9 @@ package c16
 import (
 	"math/big"
 	"os"
+	"sort"
 	"strconv"
+	"sync"
 	"testing"
 
 	"verifharness/hx"
@@ -74,8 +76,77 @@ func decParams(d *hx.D) *client.NetworkInterfaceOptions {
 	return o
 }
 
+// concurrent round: K identical requests fail and put their tokens back, then P goroutines
+// issue the same request at once; tokens are renamed (put-back ones 0..K-1, fresh ones K..) and sorted
+func evalConcurrent(k, p int) []*big.Int {
+	os.Setenv("IDEMPOTENT_KEY_CACHE_SIZE", "500")
+	gen := client.NewIdempotentKeyGenerator()
+	nio := &client.NetworkInterfaceOptions{NetworkInterfaceID: "eni-1", IPCount: 3}
+	names := map[string]int{}
+	var rbs []func()
+	for i := 0; i < k; i++ {
+		req, rb, err := (&client.AssignPrivateIPAddressOptions{NetworkInterfaceOptions: nio}).Finish(gen)
+		if err != nil {
+			return nil
+		}
+		names[req.ClientToken] = len(names)
+		rbs = append(rbs, rb)
+	}
+	for _, rb := range rbs {
+		rb()
+	}
+	toks := make([]string, p)
+	var wg sync.WaitGroup
+	start := make(chan struct{})
+	for g := 0; g < p; g++ {
+		wg.Add(1)
+		go func(g int) {
+			defer wg.Done()
+			<-start
+			req, _, err := (&client.AssignPrivateIPAddressOptions{NetworkInterfaceOptions: nio}).Finish(gen)
+			if err == nil {
+				toks[g] = req.ClientToken
+			}
+		}(g)
+	}
+	close(start)
+	wg.Wait()
+	var ids []int
+	fresh := map[string]int{}
+	for _, t := range toks {
+		if id, ok := names[t]; ok {
+			ids = append(ids, id)
+		} else {
+			if _, ok := fresh[t]; !ok {
+				fresh[t] = len(fresh)
+			}
+			ids = append(ids, -1-fresh[t]) // placeholder, renamed after sorting
+		}
+	}
+	// fresh tokens are interchangeable: number them k, k+1, .. (a duplicate keeps one number)
+	var o hx.B
+	var out []int
+	for _, id := range ids {
+		if id >= 0 {
+			out = append(out, id)
+		} else {
+			out = append(out, k+(-1-id))
+		}
+	}
+	sort.Ints(out)
+	o.I(out...)
+	if o.L == nil {
+		o.L = []*big.Int{}
+	}
+	return o.L
+}
+
 func eval(in []*big.Int) []*big.Int {
 	d := hx.NewD(in)
+	if in[0].Sign() < 0 {
+		d.Int()
+		return evalConcurrent(d.Int(), d.Int())
+	}
 	capN, nops := d.Int(), d.Int()
 	os.Setenv("IDEMPOTENT_KEY_CACHE_SIZE", strconv.Itoa(capN))
 	gen := client.NewIdempotentKeyGenerator()
@@ -184,11 +255,17 @@ func genParams(r *hx.Rand) *params {
 	}
 	p.ipc, p.ip6c = r.Range(-1, 12), r.Range(-1, 5)
 	nt := r.Intn(7)
+	if r.Chance(1, 6) {
+		nt = r.Range(7, 48) // any number of tags
+	}
 	seen := map[string]bool{}
 	for i := 0; i < nt; i++ {
 		k := word(r)
 		if r.Bool() {
 			k += word(r)
+		}
+		if nt > 7 {
+			k += strconv.Itoa(r.Intn(60))
 		}
 		if seen[k] {
 			continue
@@ -231,6 +308,11 @@ func mutate(r *hx.Rand, p *params) *params {
 func gen(r *hx.Rand) [][]*big.Int {
 	var cs [][]*big.Int
 	n := hx.N(300)
+	rc := r.Fork()
+	for c := 0; c < 2*n; c++ { // concurrent rounds
+		var b hx.B
+		cs = append(cs, b.I(-1, rc.Range(1, 6), rc.Range(2, 8)).L)
+	}
 	for c := 0; c < n; c++ {
 		rr := r.Fork()
 		npool := rr.Range(1, 5)
